@@ -102,8 +102,11 @@ def toposort(ctx, world):
             ok_edge = (form and it_ok) if form is not None else None
     _ok(ctx, "A13.topo", "toposort phase 2: pops a released node and yields it", ok_yield, loc, f"{q}:yield", "phase 2 does not yield exactly the node it pops", W)
     _ok(ctx, "A13.topo", "toposort phase 2: per parent edge, release iff last outstanding edge, else decrement", ok_edge, loc, f"{q}:edge", "for a parent edge the parent is not released exactly when its outstanding count is 1 (else decremented by one)", W)
+    # counters are compared by value, never by identity (`is` on ints only works for CPython's small-int cache)
+    ident = [x for x in ast.walk(fn) if isinstance(x, ast.Compare) and any(isinstance(o, (ast.Is, ast.IsNot)) for o in x.ops) and not any(isinstance(c, ast.Constant) and c.value is None for c in [x.left] + x.comparators)]
+    _ok(ctx, "A13.topo", "toposort: edge counters compared by value", not ident, loc_of(m, ident[0]) if ident else loc, f"{q}:identity-comparison", f"`{norm_text(ident[0]) if ident else ''}` compares counters with `is`: true only for CPython's cached small integers", "a value consumed more than 256 times (a parameter reused in a long Python loop)")
     decided = sum(1 for x in (ok_inc, ok_first, ok_yield, ok_edge) if x is not None)
-    ctx.floor("A13.topo decided clauses", decided, 3)
+    ctx.floor("A13.topo decided clauses", decided, 4)
 
 
 # ------------------------------------------------------------------------------------------- container vspaces
@@ -365,3 +368,127 @@ def products(ctx, world):
             except Exception:
                 ok = False
     _ok(ctx, "A15.products", "make_ggnvp: f_vjp(g_hvp(f_jvp(v)))", ok, loc_of(m, fn), f"{DO}.make_ggnvp", "the generalised Gauss-Newton product is not J^T H_g J v composed as f_vjp(g_hvp(f_jvp(v)))", "make_ggnvp(f)(x)(v) against the explicit J^T H J v")
+
+
+# ------------------------------------------------------------------------------------------- layout / squeeze / guard fns
+def layout_independence(ctx, world):
+    """A9.layout: values never depend on the memory layout of an operand."""
+    ctx.describe("A9.layout", "no value-computing code in autograd/ flattens or reshapes with a memory-layout dependent order (ravel/flatten/reshape with order='K' or 'A', .flat of a possibly non-contiguous operand is not used): results are functions of values, not of strides")
+    n = 0
+    for mod in world.repo.mods.values():
+        if mod.name.startswith(("autograd.scipy", "autograd.misc", "autograd.test_util")):
+            continue
+        for x in ast.walk(mod.tree):
+            if isinstance(x, ast.Call):
+                nm = getattr(x.func, "attr", getattr(x.func, "id", ""))
+                if nm in ("ravel", "flatten", "reshape"):
+                    n += 1
+                    bad = [k for k in x.keywords if k.arg == "order" and isinstance(k.value, ast.Constant) and k.value.value in ("K", "A", "k", "a")]
+                    pos_bad = [a for a in x.args[1:] if isinstance(a, ast.Constant) and a.value in ("K", "A")] if nm in ("ravel", "flatten") else []
+                    inst = f"{mod.name}:{norm_text(x)[:60]}"
+                    if bad or pos_bad:
+                        ctx.fail("A9.layout", inst, f"{mod.name}|{norm_text(x)[:80]}", loc_of(mod, x), f"`{norm_text(x)[:70]}` flattens in memory order: two arrays with equal values but different strides (a transposed view, a Fortran-ordered array) are paired element-wise in different orders", "the same vectors given once C-contiguous and once as a transposed view / Fortran-ordered array")
+                    else:
+                        ctx.ob("A9.layout", inst, True, loc_of(mod, x), nontrivial=False)
+    ctx.ob("A9.layout", "no layout-dependent flattening in autograd/", True, "autograd/*")
+    ctx.floor("A9.layout flatten/reshape call sites", n, 15)
+
+
+def squeeze_axes(ctx, world):
+    ctx.describe("A3.squeeze", "inside rule bodies np.squeeze is always given an explicit axis: a bare squeeze also removes the size-1 dimensions that belong to the argument, so the cotangent loses the argument's shape")
+    from .common import construct_of, deep_terms, resolve_callee, is_numpy_callable, base_name
+
+    n = 0
+    for e in world.table.entries:
+        if e.spec != "maker" or not world.in_numpy_scope(e):
+            continue
+        ir = world.ir(e)
+        if ir is None or not ir.ok:
+            continue
+        for t in deep_terms(world.ev, ir.result):
+            if t.op != "call":
+                continue
+            ref, pre = resolve_callee(world.ev, t)
+            is_sq = (ref is not None and is_numpy_callable(ref) and base_name(ref) == "squeeze") or (t.fn.op == "attr" and t.fn.name == "squeeze")
+            if not is_sq:
+                continue
+            n += 1
+            nargs = len(pre) + len(t.args) + (0 if t.fn.op != "attr" else 1)
+            has_axis = "axis" in t.kw or nargs >= 2
+            inst = construct_of(e) + "|" + (norm_text(t.node)[:50] if t.node is not None else "squeeze")
+            if has_axis:
+                ctx.ob("A3.squeeze", inst, True, e.loc)
+            else:
+                ctx.fail("A3.squeeze", inst, f"{e.mode}:{e.prim_id}|bare-squeeze", e.loc, f"`{norm_text(t.node)[:60] if t.node is not None else 'squeeze(...)'}` squeezes every size-1 axis of the (co)tangent, including those of the argument itself", "an argument that has a size-1 dimension of its own, e.g. shape (1, 3)")
+    ctx.floor("A3.squeeze squeeze calls in rule bodies", n, 2)
+
+
+def guard_functions(ctx, world):
+    ctx.describe("A6.guardfn", "a check_*(...) guard function raises under ONE comparison over its parameters: the raise is not nested under further conditions / loops and the condition is not a conjunction (a weakened guard lets unsupported configurations through)")
+    n = 0
+    for mod in world.repo.mods.values():
+        if not mod.name.startswith("autograd.numpy"):
+            continue  # the guards called from rule makers live next to the rules (test_util.check_* are the gradient checker)
+        for st in mod.tree.body:
+            if isinstance(st, ast.FunctionDef) and st.name.startswith("check_"):
+                n += 1
+                inst = f"{mod.name}.{st.name}"
+                raises = [x for x in ast.walk(st) if isinstance(x, ast.Raise)]
+                ok = bool(raises)
+                why = "the guard function never raises"
+                for r in raises:
+                    chain = []
+                    p = getattr(r, "_parent", None)
+                    while p is not None and p is not st:
+                        if isinstance(p, (ast.If, ast.For, ast.While, ast.Try, ast.With)):
+                            chain.append(p)
+                        p = getattr(p, "_parent", None)
+                    if len(chain) != 1 or not isinstance(chain[0], ast.If):
+                        ok, why = False, f"the raise is nested under {len(chain)} control structures ({', '.join(type(c).__name__ for c in chain)}), not under a single `if`"
+                        break
+                    test = chain[0].test
+                    if isinstance(test, ast.BoolOp) and isinstance(test.op, ast.And):
+                        ok, why = False, f"the raise condition `{norm_text(test)[:60]}` is a conjunction"
+                        break
+                    if chain[0].body and r not in chain[0].body:
+                        ok, why = False, "the raise is in the else-branch of a more specific test"
+                        break
+                _ok(ctx, "A6.guardfn", inst, ok, loc_of(mod, st), inst, f"{inst}: {why}", "an unsupported configuration that satisfies the original condition but not the additional ones")
+    ctx.floor("A6.guardfn guard functions", n, 2)
+
+
+def axis_normalisation_consistency(ctx, world):
+    ctx.describe("A7.norm", "where a function range-checks an axis against +-N and then normalises a negative axis by adding M, M is N (the rank of the array the axis indexes): in numpy_wrapper.stack the axis indexes the RESULT (ndim + 1)")
+    n = 0
+    for mod in world.repo.mods.values():
+        if mod.name.startswith(("autograd.scipy", "autograd.misc")):
+            continue
+        for fq, fn in mod.functions():
+            if not isinstance(fn, ast.FunctionDef):
+                continue
+            norms = []
+            bounds = {}
+            for x in ast.walk(fn):
+                # if axis < 0: axis += M
+                if isinstance(x, ast.If) and isinstance(x.test, ast.Compare) and len(x.test.ops) == 1 and isinstance(x.test.ops[0], ast.Lt) and isinstance(x.test.left, ast.Name) and isinstance(x.test.comparators[0], ast.Constant) and x.test.comparators[0].value == 0:
+                    v = x.test.left.id
+                    for s in x.body:
+                        if isinstance(s, ast.AugAssign) and isinstance(s.op, ast.Add) and isinstance(s.target, ast.Name) and s.target.id == v:
+                            norms.append((v, s.value, s))
+                        if isinstance(s, ast.Assign) and isinstance(s.targets[0], ast.Name) and s.targets[0].id == v and isinstance(s.value, ast.BinOp) and isinstance(s.value.op, ast.Add):
+                            other = s.value.right if isinstance(s.value.left, ast.Name) and s.value.left.id == v else s.value.left
+                            norms.append((v, other, s))
+                # -N <= axis < N
+                if isinstance(x, ast.Compare) and len(x.ops) == 2 and isinstance(x.comparators[0], ast.Name):
+                    v = x.comparators[0].id
+                    lo, hi = x.left, x.comparators[1]
+                    if isinstance(lo, ast.UnaryOp) and isinstance(lo.op, ast.USub) and norm_text(lo.operand) == norm_text(hi):
+                        bounds[v] = hi
+            for v, m_expr, site in norms:
+                if v not in bounds:
+                    continue
+                n += 1
+                inst = f"{fq}:{v}"
+                ok = norm_text(m_expr) == norm_text(bounds[v])
+                _ok(ctx, "A7.norm", inst, ok, loc_of(mod, site), f"{fq}|{v}+={norm_text(m_expr)[:30]}", f"{fq}: `{v}` is range-checked against +-{norm_text(bounds[v])} but a negative value is normalised by adding {norm_text(m_expr)}: the two ranks disagree", f"the function called with a negative {v}, e.g. {v}=-1")
+    ctx.floor("A7.norm range-checked normalisations", n, 1)
